@@ -9,7 +9,10 @@ Definition run_by_id (id : Z) (c : sx) : sx :=
   | 2 => EngineConc.run_sx c
   | 3 => EngineConc.run_sx c
   | 4 => Grl.run_sx c
-  | 5 => match c with L [A 5; t] => match getZs t with Some t => BwExpr.run_text t | None => sx_bad end | _ => ExprShape.run_sx c end
+  | 5 => match c with
+         | L [A 5; t] => match getZs t with Some t => BwExpr.run_text t | None => sx_bad end
+         | L [A 4; t] => match getZs t with Some t => BwExpr.run_query_text t | None => sx_bad end
+         | _ => ExprShape.run_sx c end
   | 6 => Incremental.run_sx c
   | 7 => ReteAgenda.run_sx c
   | 8 => Tms.run_sx c
